@@ -11,7 +11,7 @@ META = {
     "level": "proof",
     "technique": "contract-based deductive verification: the real create_filter_callable against a recursively defined spec function wrap_filters (fold over the effective filter list D + P + local with the two meanings of n), loop invariant and unfolding axioms, the flag table read from filters.py on every run, VCs discharged by z3/cvc5; regex obligations (meaning of the two patterns, no exponential ambiguity in the expression scanner's patterns)",
     "level_text": "For all filter lists, page filters, default filters and targets: the emitted expression is f_k(...f_1(target)) over exactly the list default_filters + page filters + local filters, with n among the local filters removing both other sources and n among the page filters removing the defaults only; flag names denote the documented functions, decode.<enc> denotes filters.decode.<enc>, any other name (or call with arguments) denotes itself.",
-    "level_note": "Proved for the emitter of ${} expressions and for visitExpression (the line written is __M_writer(<pipeline over D, P and the local filters>) whichever of the three are empty); the filter= sites (defs, blocks, <%text>, buffer_filters) reuse the same function and are covered by the bounded site grid only. The expression scanner (parse_until_text) is outside the verifier's reach (regex cascade over a string with three counters): bounded spelling grid + the regex ambiguity obligation. Assumed: DEFAULT_ESCAPES is not mutated at run time; re.match as uninterpreted predicate/group functions whose meaning for the two literals is the C02.regex obligation (enumeration, bounded).",
+    "level_note": "Proved for the emitter of ${} expressions and for visitExpression (the line written is __M_writer(<pipeline over D, P and the local filters>) whichever of the three are empty); write_def_finish is under contract too (a def or block with filter= passes its collected content once through exactly those filters, a buffered one then through buffer_filters; neither default_filters nor the page filters take part), and so is the clause of Template.__init__ that keeps the default filters as given (an empty list stays empty); <%text filter=> is covered by the bounded site grid only. The expression scanner (parse_until_text) is outside the verifier's reach (regex cascade over a string with three counters): bounded spelling grid + the regex ambiguity obligation. Assumed: DEFAULT_ESCAPES is not mutated at run time; re.match as uninterpreted predicate/group functions whose meaning for the two literals is the C02.regex obligation (enumeration, bounded).",
 }
 
 KEYS = ["mako.codegen:_GenerateRenderMethod.create_filter_callable", "mako.codegen:_GenerateRenderMethod.visitExpression",
